@@ -42,6 +42,14 @@ CLAIMED = {
           "debounce / throttle (all edges, fixed and item-dependent windows) / sample(interval) / buffer_with_time / buffer_with_count_and_time run generated timed scripts; outputs must be source items, at most once, in order, buffers non-empty and bounded and complete on completion, and the (time, notification) list must equal a discrete-event reference model of the documented window semantics. Exploration within the stated bounds (single thread; concurrent producers are covered by the engine-T part when present).",
           "Trusts the discrete-event model in props/c09.rs (documented window semantics + FIFO executor semantics) and the virtual clock.",
           "DESIGN.md §3 C09"),
+  "C11": ("engine-S", "model-based stateful PBT over subscribe/unsubscribe/source-event histories of share / share_threads / publish (proptest tapes + shrinking, bounded-exhaustive short histories) with instrumented upstream (subscription-counting defer, tap counter, live-task count)",
+          "Histories by up to three subscribers over cold, hot and periodic sources are applied to the real shared observable and to a model: number of source subscriptions (0 before connect/first subscribe, exactly 1 after), per-subscriber traces, no upstream side effect after the last subscriber left, periodic task retired one period later. All histories of length <= 6 over a compact alphabet are enumerated (thorough). Exploration within those bounds.",
+          "Trusts the model in props/c11.rs and the counting instrumentation (defer/tap) placed upstream of the shared observable.",
+          "DESIGN.md §3 C11"),
+  "C12": ("engine-S", "model-based stateful PBT over histories on several clones of a BehaviorSubject (proptest tapes + shrinking, bounded-exhaustive short histories), local and thread-safe subject",
+          "Histories of next / next_by / clone / subscribe / unsubscribe / peek / complete / error through up to three clones are compared with a (value, subscribers) model: peek() and every new subscriber's first notification equal the most recent value written through any clone (also after a terminal), later items exactly once. Histories of length <= 5 are enumerated (thorough). Exploration within those bounds; concurrent producers belong to the engine-T part.",
+          "Trusts the model in props/c12.rs.",
+          "DESIGN.md §3 C12"),
   "C13": ("engine-P", "model-based PBT with instrumented closures: generated cold chains built once as CloneableBoxOp, cloned and subscribed successively and nested; counters + reference interpreter as oracle",
           "Generated cold chains (counting source closures, defer factories, poll-counting futures, counting map/filter/scan/tap closures) are built once, then 2-3 clones are subscribed successively and one from inside a callback: all counters must be 0 after building, grow by exactly one per subscription, and every subscription must deliver the reference interpreter's sequence. Exploration within the stated bounds.",
           "Trusts the reference interpreter and the counting wrappers; only operators with a cloneable form are generated (the C03 catalogue).",
